@@ -16,48 +16,33 @@ open PdshVerif.Dsh.Timed
 open PdshVerif.Gen.Fn.Dsh
 
 /-- the C record of a model host (the two fields the decisions read) -/
-def toC (h : Host) : thd := { start := (h.start : Int), connect := (h.conn : Int) }
+@[reducible] def toC (h : Host) : thd := { (default : thd) with start := (h.start : Int), connect := (h.conn : Int) }
+
+/-! Proof style of this file (robust against helper extraction / inlining, `a < b` vs `b > a`, nested vs merged
+    conditions, early returns vs `?:`): split on the ATOMIC arithmetic facts of the model side, then ONE `simp` that
+    unfolds the translated definitions (the auxiliaries the translator followed calls into are `@[simp]`) and
+    decides EVERY `if` of the code side by linear arithmetic (`if_pos` / `if_neg` discharged by `omega`). -/
 
 /-- BRIDGE `_thd_connect_timeout`: 1 iff `connect_timeout > 0` and `start + connect_timeout < now`
     (no overflow for any `int` time-out and any instant below 2^62) -/
 theorem thd_connect_timeout_bridge (ct now : Nat) (h : Host) (hct : ct ≤ 2147483647) (hs : h.start < 2 ^ 62) :
     _thd_connect_timeout (ct : Int) (now : Int) (toC h) =
       some (if 0 < ct ∧ h.start + ct < now then 1 else 0) := by
-  simp only [_thd_connect_timeout, toC]
   have h62 : (2 : Nat) ^ 62 = 4611686018427387904 := by decide
   rw [h62] at hs
-  by_cases h0 : 0 < ct
-  · have h0' : (ct : Int) > 0 := by omega
-    have hne : (h.start : Int) ≠ -1 := by omega
-    have hr : -9223372036854775808 ≤ (h.start : Int) + (ct : Int) ∧ (h.start : Int) + (ct : Int) ≤ 9223372036854775807 := by omega
-    simp only [h0', hne, ne_eq, not_false_eq_true, and_self, if_true, hr, not_true_eq_false, if_false, h0, true_and]
-    by_cases hlt : h.start + ct < now
-    · have : (h.start : Int) + (ct : Int) < (now : Int) := by omega
-      simp [hlt, this]
-    · have : ¬ (h.start : Int) + (ct : Int) < (now : Int) := by omega
-      simp [hlt, this]
-  · have h0' : ¬ (ct : Int) > 0 := by omega
-    simp [h0, h0']
+  by_cases h0 : 0 < ct <;> by_cases hlt : h.start + ct < now <;>
+    simp (disch := omega) [_thd_connect_timeout, toC, h0, hlt, if_pos, if_neg, decide_eq_true_eq] <;>
+    try simp (disch := omega) only [if_pos, if_neg]
 
 /-- BRIDGE `_thd_command_timeout`: 1 iff `command_timeout > 0` and `connect + command_timeout < now` -/
 theorem thd_command_timeout_bridge (ut now : Nat) (h : Host) (hut : ut ≤ 2147483647) (hs : h.conn < 2 ^ 62) :
     _thd_command_timeout (ut : Int) (now : Int) (toC h) =
       some (if 0 < ut ∧ h.conn + ut < now then 1 else 0) := by
-  simp only [_thd_command_timeout, toC]
   have h62 : (2 : Nat) ^ 62 = 4611686018427387904 := by decide
   rw [h62] at hs
-  by_cases h0 : 0 < ut
-  · have h0' : (ut : Int) > 0 := by omega
-    have hne : (h.conn : Int) ≠ -1 := by omega
-    have hr : -9223372036854775808 ≤ (h.conn : Int) + (ut : Int) ∧ (h.conn : Int) + (ut : Int) ≤ 9223372036854775807 := by omega
-    simp only [h0', hne, ne_eq, not_false_eq_true, and_self, if_true, hr, not_true_eq_false, if_false, h0, true_and]
-    by_cases hlt : h.conn + ut < now
-    · have : (h.conn : Int) + (ut : Int) < (now : Int) := by omega
-      simp [hlt, this]
-    · have : ¬ (h.conn : Int) + (ut : Int) < (now : Int) := by omega
-      simp [hlt, this]
-  · have h0' : ¬ (ut : Int) > 0 := by omega
-    simp [h0, h0']
+  by_cases h0 : 0 < ut <;> by_cases hlt : h.conn + ut < now <;>
+    simp (disch := omega) [_thd_command_timeout, toC, h0, hlt, if_pos, if_neg, decide_eq_true_eq] <;>
+    try simp (disch := omega) only [if_pos, if_neg]
 
 /-- the watchdog's per-slot decision of the model IS the code's: a slot is signalled iff it is in RCMD
     and `_thd_connect_timeout` says so, or in READING and `_thd_command_timeout` says so -/
@@ -72,5 +57,42 @@ theorem killed_bridge (c : Cfg) (now : Nat) (h : Host) (hct : c.ct ≤ 214748364
   have e0 : ((some (0 : Int)) != some 0) = false := by decide
   by_cases h1 : 0 < c.ct <;> by_cases h2 : h.start + c.ct < now <;>
     by_cases h3 : 0 < c.ut <;> by_cases h4 : h.conn + c.ut < now <;> simp [h1, h2, h3, h4, e1, e0]
+
+/-! ### the watchdog's per-slot `switch` (statement INSIDE `_wdog`, registry entry `wdog_slot`) -/
+
+/-- `t[i].state` of a model phase (RCMD covers "not yet blocked" and "blocked in connect") -/
+def stateOf : Phase → Nat
+  | .new => 0 | .rcmd => 1 | .connecting => 1 | .reading => 2 | .finished => 3
+
+/-- the slot with its state and thread id -/
+@[reducible] def toCS (h : Host) (tid : Nat) : thd := { toC h with state := stateOf h.ph, thread := tid }
+
+/-- what the code's watchdog decides for one slot -/
+def signalled (c : Cfg) (now : Nat) (h : Host) : Bool :=
+  (stateOf h.ph == 1 && decide (0 < c.ct) && decide (h.start + c.ct < now)) ||
+  (h.ph == .reading && decide (0 < c.ut) && decide (h.conn + c.ut < now))
+
+/-- BRIDGE the `switch (t[i].state)` of `_wdog`: exactly one `pthread_kill (t[i].thread, SIGALRM)` when the slot
+    is in RCMD past the connect time-out or in READING past the command time-out, nothing otherwise -/
+theorem wdog_slot_bridge (c : Cfg) (now tid : Nat) (h : Host) (hct : c.ct ≤ 2147483647) (hut : c.ut ≤ 2147483647)
+    (hs : h.start < 2 ^ 62) (hc : h.conn < 2 ^ 62) :
+    wdog_slot (c.ct : Int) (c.ut : Int) (now : Int) (toCS h tid) =
+      some (if signalled c now h then [⟨"pthread_kill", [.int (tid : Int), .int 14]⟩] else []) := by
+  have h62 : (2 : Nat) ^ 62 = 4611686018427387904 := by decide
+  rw [h62] at hs hc
+  unfold wdog_slot signalled
+  cases hp : h.ph <;>
+    by_cases a : 0 < c.ct <;> by_cases b : h.start + c.ct < now <;> by_cases d : 0 < c.ut <;>
+    by_cases e : h.conn + c.ut < now <;>
+    simp (disch := omega) [_thd_connect_timeout, _thd_command_timeout, toCS, toC, stateOf, hp, a, b, d, e, if_pos, if_neg,
+      decide_eq_true_eq]
+
+/-- the model's `killed` (a signal that takes effect) is the code's decision, except in the window where the
+    slot is already RCMD but the worker is not yet blocked in connect (phase `.rcmd`: the signal is lost) -/
+theorem killed_wdog_slot (c : Cfg) (now : Nat) (h : Host) :
+    killed c now h = (h.ph != .rcmd && signalled c now h) := by
+  have hb : ∀ a b : Phase, (a == b) = decide (a = b) := by intro a b; cases a <;> cases b <;> rfl
+  unfold killed signalled
+  cases hp : h.ph <;> simp [stateOf, hb, bne]
 
 end PdshVerif.Bridge.Dsh
